@@ -62,6 +62,42 @@ def check(case):
             'nontrivial': ok}
 
 
+def _declare(key, value=b'I\x00\x00\x00\x07'):
+    entry = bytes([len(key)]) + key + value
+    payload = b'\x00\x32\x00\x0a\x00\x00\x01q\x00' + len(entry).to_bytes(4, 'big') + entry
+    return b'\x01\x00\x01' + len(payload).to_bytes(4, 'big') + payload + b'\xce'
+
+
+def long_history_bulk(tier, shard, nshards, rec):
+    """one process, one long decode history: refused inputs of several kinds, each followed
+    by thousands of valid frames with never-seen names - a frame that decodes alone must
+    not start failing because of what was decoded (or refused) long before"""
+    n_valid = 5000 if tier == 'quick' else 70000
+    refusals = [_declare(b'\xff\xfe'), _declare(b'k', b'Z'), _declare(b'k', b'S\x00'),
+                _declare(b'k', b'T\xff\xff\xff\xff\xff\xff\xff\xff'),
+                b'\x01\x00\x01\x00\x00\x00\x02\x00\x32\xce', b'\x09\x00\x00\x00\x00\x00\x01x\xce']
+    mine = refusals[shard::nshards] if shard < len(refusals) else []
+    n = 0
+    for ri, bad in enumerate(mine):
+        judge(bad)
+        for i in range(n_valid):
+            key = b'h%d-%d-%07d' % (shard, ri, i)
+            data = _declare(key) if i % 3 else _declare(b'outer%d' % i, b'F' + (
+                len(key) + 2).to_bytes(4, 'big') + bytes([len(key)]) + key + b'V')
+            n += 1
+            try:
+                out = judge(data)
+                if out != 'decoded':
+                    rec.fail('history:refuses-valid', {'raw': data},
+                             'a valid frame was refused after %d earlier decodes that '
+                             'followed a refused input' % i)
+            except Violation as v:
+                rec.fail('history:' + v.bucket, {'raw': data}, 'after a refused input '
+                         'and %d valid frames: %s' % (i, v.message))
+    rec.count(n, n, 'long-history')
+    rec.sample({'raw': _declare(b'h-sample')})
+
+
 def byte_bulk(tier, shard, nshards, rec):
     plan = D.byte_sweep_plan(tier)[shard::nshards]
     n = nt = 0
@@ -93,6 +129,10 @@ COMPONENTS = [
     Component('bytes-all', check, bulk=byte_bulk, distinct_by_construction=True,
               exhaustive=True,
               describe='every single-byte substitution of the seed frames'),
+    Component('long-history', check, bulk=long_history_bulk,
+              distinct_by_construction=True,
+              describe='per process: a refused input of one of six kinds, then 5000 '
+                       '(thorough 70000) valid frames with never-seen field names'),
     Component('fields-all', check, cases=D.field_sweep_cases,
               distinct_by_construction=True, exhaustive=True,
               describe='every located field x every rewrite mode x fix-up'),
